@@ -36,7 +36,7 @@ const (
 type Roster struct {
 	XMLName xml.Name `xml:"jabber:iq:roster query"`
 	// Result sets
-	ResultSet *ResultSet `xml:"set,omitempty"`
+	ResultSet *ResultSet `xml:"http://jabber.org/protocol/rsm set,omitempty"`
 }
 
 // Namespace defines the namespace for the RosterIQ
@@ -68,9 +68,9 @@ func (iq *IQ) RosterIQ() *Roster {
 // RosterItems represents the list of items in a roster IQ
 type RosterItems struct {
 	XMLName xml.Name     `xml:"jabber:iq:roster query"`
-	Items   []RosterItem `xml:"item"`
+	Items   []RosterItem `xml:"jabber:iq:roster item"`
 	// Result sets
-	ResultSet *ResultSet `xml:"set,omitempty"`
+	ResultSet *ResultSet `xml:"http://jabber.org/protocol/rsm set,omitempty"`
 }
 
 // Namespace lets RosterItems implement the IQPayload interface
